@@ -23,42 +23,42 @@ namespace Inv
     `warn` is, whatever the exit status - unless a worker thread died (which is reported first,
     C08).  The command has been killed exactly once and has ended. -/
 theorem timeout_kills_and_raises (hi ht w p e : Bool) (o er : List Chunk) (ins : List InItem) (ho sf : Bool)
-    (n : Nat) (evs : List Ev)
-    (hk : (run (S.init hi ht w p e o er ins ho sf n) evs).killIssued = true)
-    (hdone : (run (S.init hi ht w p e o er ins ho sf n) evs).mainPc = .done) :
-    ((run (S.init hi ht w p e o er ins ho sf n) evs).outcome = .threadExc ∨
-     ∃ rc, (run (S.init hi ht w p e o er ins ho sf n) evs).outcome = .timedOut rc) ∧
-    (run (S.init hi ht w p e o er ins ho sf n) evs).kills = 1 ∧
-    (run (S.init hi ht w p e o er ins ho sf n) evs).exited = true := by
-  have inv := timerInv_run _ evs (timerInv_init hi ht w p e o er ins ho sf n)
+    (n : Nat) (asy : Bool) (evs : List Ev)
+    (hk : (run (S.init hi ht w p e o er ins ho sf n asy) evs).killIssued = true)
+    (hdone : (run (S.init hi ht w p e o er ins ho sf n asy) evs).mainPc = .done) :
+    ((run (S.init hi ht w p e o er ins ho sf n asy) evs).outcome = .threadExc ∨
+     ∃ rc, (run (S.init hi ht w p e o er ins ho sf n asy) evs).outcome = .timedOut rc) ∧
+    (run (S.init hi ht w p e o er ins ho sf n asy) evs).kills = 1 ∧
+    (run (S.init hi ht w p e o er ins ho sf n asy) evs).exited = true := by
+  have inv := timerInv_run _ evs (timerInv_init hi ht w p e o er ins ho sf n asy)
   refine ⟨inv.issuedTimedOut (by rw [hdone]; rfl) hk, by rw [inv.kills, hk]; rfl, ?_⟩
   exact killed_exited_run _ evs (by simp [S.init]) hk
 
 /-- the kill count IS the `kill issued` flag: the command is killed at most once, and exactly once
     iff the timer's kill ran before the command was seen to end -/
 theorem kills_eq_issued (hi ht w p e : Bool) (o er : List Chunk) (ins : List InItem) (ho sf : Bool)
-    (n : Nat) (evs : List Ev) :
-    (run (S.init hi ht w p e o er ins ho sf n) evs).kills =
-      if (run (S.init hi ht w p e o er ins ho sf n) evs).killIssued then 1 else 0 :=
-  (timerInv_run _ evs (timerInv_init hi ht w p e o er ins ho sf n)).kills
+    (n : Nat) (asy : Bool) (evs : List Ev) :
+    (run (S.init hi ht w p e o er ins ho sf n asy) evs).kills =
+      if (run (S.init hi ht w p e o er ins ho sf n asy) evs).killIssued then 1 else 0 :=
+  (timerInv_run _ evs (timerInv_init hi ht w p e o er ins ho sf n asy)).kills
 
 /-- a timed-out failure is only ever reported after the kill was issued: `CommandTimedOut` ⇒ exactly
     one kill, and the command has ended -/
 theorem timed_out_means_killed (hi ht w p e : Bool) (o er : List Chunk) (ins : List InItem) (ho sf : Bool)
-    (n : Nat) (evs : List Ev) (rc : Int) :
-    (run (S.init hi ht w p e o er ins ho sf n) evs).outcome = .timedOut rc →
-    (run (S.init hi ht w p e o er ins ho sf n) evs).kills = 1 ∧
-    (run (S.init hi ht w p e o er ins ho sf n) evs).exited = true := by
+    (n : Nat) (asy : Bool) (evs : List Ev) (rc : Int) :
+    (run (S.init hi ht w p e o er ins ho sf n asy) evs).outcome = .timedOut rc →
+    (run (S.init hi ht w p e o er ins ho sf n asy) evs).kills = 1 ∧
+    (run (S.init hi ht w p e o er ins ho sf n asy) evs).exited = true := by
   intro h
-  have inv := timerInv_run _ evs (timerInv_init hi ht w p e o er ins ho sf n)
+  have inv := timerInv_run _ evs (timerInv_init hi ht w p e o er ins ho sf n asy)
   have hk := inv.timedOutIssued rc h
   exact ⟨by rw [inv.kills, hk]; rfl, killed_exited_run _ evs (by simp [S.init]) hk⟩
 
 /-- the command is killed at most once -/
 theorem kills_at_most_once (hi ht w p e : Bool) (o er : List Chunk) (ins : List InItem) (ho sf : Bool)
-    (n : Nat) (evs : List Ev) :
-    (run (S.init hi ht w p e o er ins ho sf n) evs).kills ≤ 1 := by
-  have inv := timerInv_run _ evs (timerInv_init hi ht w p e o er ins ho sf n)
+    (n : Nat) (asy : Bool) (evs : List Ev) :
+    (run (S.init hi ht w p e o er ins ho sf n asy) evs).kills ≤ 1 := by
+  have inv := timerInv_run _ evs (timerInv_init hi ht w p e o er ins ho sf n asy)
   rw [inv.kills]; split <;> omega
 
 /-- **timely_command_normal** - if at any point of any schedule the main thread has seen the command
@@ -68,36 +68,36 @@ theorem kills_at_most_once (hi ht w p e : Bool) (o er : List Chunk) (ins : List 
     a normal return or the unexpected-exit failure, by exit status and `warn` - unless a worker
     thread died. -/
 theorem timely_command_normal (hi ht w p e : Bool) (o er : List Chunk) (ins : List InItem) (ho sf : Bool)
-    (n : Nat) (evs₁ evs₂ : List Ev)
-    (hpd : (run (S.init hi ht w p e o er ins ho sf n) evs₁).processDone = true)
-    (hnk : (run (S.init hi ht w p e o er ins ho sf n) evs₁).killIssued = false) :
-    (run (S.init hi ht w p e o er ins ho sf n) (evs₁ ++ evs₂)).kills = 0 ∧
-    (run (S.init hi ht w p e o er ins ho sf n) (evs₁ ++ evs₂)).killsAfterReturn = 0 ∧
-    (∀ rc, (run (S.init hi ht w p e o er ins ho sf n) (evs₁ ++ evs₂)).outcome ≠ .timedOut rc) ∧
-    (run (S.init hi ht w p e o er ins ho sf n) (evs₁ ++ evs₂)).rc = (run (S.init hi ht w p e o er ins ho sf n) evs₁).rc ∧
-    ((run (S.init hi ht w p e o er ins ho sf n) (evs₁ ++ evs₂)).mainPc = .done →
-      (run (S.init hi ht w p e o er ins ho sf n) (evs₁ ++ evs₂)).outcome = .threadExc ∨
-      (run (S.init hi ht w p e o er ins ho sf n) (evs₁ ++ evs₂)).outcome =
-        decideOutcome (run (S.init hi ht w p e o er ins ho sf n) (evs₁ ++ evs₂)) false) := by
-  have happ : run (S.init hi ht w p e o er ins ho sf n) (evs₁ ++ evs₂) =
-      run (run (S.init hi ht w p e o er ins ho sf n) evs₁) evs₂ := by simp [run, List.foldl_append]
-  have inv1 := timerInv_run _ evs₁ (timerInv_init hi ht w p e o er ins ho sf n)
-  have inv2 := timerInv_run _ (evs₁ ++ evs₂) (timerInv_init hi ht w p e o er ins ho sf n)
-  have sh2 := outcomeShape_run _ (evs₁ ++ evs₂) (timerInv_init hi ht w p e o er ins ho sf n)
-    (outcomeShape_init hi ht w p e o er ins ho sf n)
+    (n : Nat) (asy : Bool) (evs₁ evs₂ : List Ev)
+    (hpd : (run (S.init hi ht w p e o er ins ho sf n asy) evs₁).processDone = true)
+    (hnk : (run (S.init hi ht w p e o er ins ho sf n asy) evs₁).killIssued = false) :
+    (run (S.init hi ht w p e o er ins ho sf n asy) (evs₁ ++ evs₂)).kills = 0 ∧
+    (run (S.init hi ht w p e o er ins ho sf n asy) (evs₁ ++ evs₂)).killsAfterReturn = 0 ∧
+    (∀ rc, (run (S.init hi ht w p e o er ins ho sf n asy) (evs₁ ++ evs₂)).outcome ≠ .timedOut rc) ∧
+    (run (S.init hi ht w p e o er ins ho sf n asy) (evs₁ ++ evs₂)).rc = (run (S.init hi ht w p e o er ins ho sf n asy) evs₁).rc ∧
+    ((run (S.init hi ht w p e o er ins ho sf n asy) (evs₁ ++ evs₂)).mainPc = .done →
+      (run (S.init hi ht w p e o er ins ho sf n asy) (evs₁ ++ evs₂)).outcome = .threadExc ∨
+      (run (S.init hi ht w p e o er ins ho sf n asy) (evs₁ ++ evs₂)).outcome =
+        decideOutcome (run (S.init hi ht w p e o er ins ho sf n asy) (evs₁ ++ evs₂)) false) := by
+  have happ : run (S.init hi ht w p e o er ins ho sf n asy) (evs₁ ++ evs₂) =
+      run (run (S.init hi ht w p e o er ins ho sf n asy) evs₁) evs₂ := by simp [run, List.foldl_append]
+  have inv1 := timerInv_run _ evs₁ (timerInv_init hi ht w p e o er ins ho sf n asy)
+  have inv2 := timerInv_run _ (evs₁ ++ evs₂) (timerInv_init hi ht w p e o er ins ho sf n asy)
+  have sh2 := outcomeShape_run _ (evs₁ ++ evs₂) (timerInv_init hi ht w p e o er ins ho sf n asy)
+    (outcomeShape_init hi ht w p e o er ins ho sf n asy)
   obtain ⟨t1, t2⟩ := timely_run _ evs₂ ⟨hpd, hnk⟩
   rw [← happ] at t1 t2
-  have hk0 : (run (S.init hi ht w p e o er ins ho sf n) (evs₁ ++ evs₂)).kills = 0 := by rw [inv2.kills, t2]; rfl
-  have hnt : ∀ rc, (run (S.init hi ht w p e o er ins ho sf n) (evs₁ ++ evs₂)).outcome ≠ .timedOut rc := by
+  have hk0 : (run (S.init hi ht w p e o er ins ho sf n asy) (evs₁ ++ evs₂)).kills = 0 := by rw [inv2.kills, t2]; rfl
+  have hnt : ∀ rc, (run (S.init hi ht w p e o er ins ho sf n asy) (evs₁ ++ evs₂)).outcome ≠ .timedOut rc := by
     intro rc hrc; have := inv2.timedOutIssued rc hrc; rw [t2] at this; cases this
   refine ⟨hk0, ?_, hnt, ?_, ?_⟩
   · have := inv2.late; omega
   · rw [happ]; exact (rc_frozen_run _ evs₂ (inv1.doneExited hpd)).1
   · intro hd
-    have hsf : (run (S.init hi ht w p e o er ins ho sf n) (evs₁ ++ evs₂)).startFails = false := by
-      cases hx : (run (S.init hi ht w p e o er ins ho sf n) (evs₁ ++ evs₂)).startFails with
+    have hsf : (run (S.init hi ht w p e o er ins ho sf n asy) (evs₁ ++ evs₂)).startFails = false := by
+      cases hx : (run (S.init hi ht w p e o er ins ho sf n asy) (evs₁ ++ evs₂)).startFails with
       | false => rfl
-      | true => exact (startFails_never_done hi ht w p e o er ins ho sf n (evs₁ ++ evs₂) hx t1).elim
+      | true => exact (startFails_never_done hi ht w p e o er ins ho sf n asy (evs₁ ++ evs₂) hx t1).elim
     rcases sh2 (by rw [hd]; rfl) hsf with h | h | h
     · exact Or.inl h
     · obtain ⟨rc, hrc⟩ := h; exact absurd hrc (hnt rc)
@@ -112,44 +112,44 @@ theorem timely_command_normal (hi ht w p e : Bool) (o er : List Chunk) (ins : Li
     the input items still to forward and main's remaining program points - NOT how much longer the
     command would have run. -/
 theorem timeout_reported_promptly (hi ht w p e : Bool) (o er : List Chunk) (ins : List InItem) (sf : Bool)
-    (n : Nat) (hn : 0 < n) (evs : List Ev) (rs : List (List Actor))
-    (hk : (run (S.init hi ht w p e o er ins false sf n) evs).killIssued = true)
-    (hc : ∀ r ∈ rs, Covers r) (hl : mu (run (S.init hi ht w p e o er ins false sf n) evs) < rs.length) :
-    Terminal (rs.foldl runRound (run (S.init hi ht w p e o er ins false sf n) evs)) ∧
-    ((rs.foldl runRound (run (S.init hi ht w p e o er ins false sf n) evs)).outcome = .threadExc ∨
-     ∃ rc, (rs.foldl runRound (run (S.init hi ht w p e o er ins false sf n) evs)).outcome = .timedOut rc) ∧
-    (rs.foldl runRound (run (S.init hi ht w p e o er ins false sf n) evs)).kills = 1 := by
+    (n : Nat) (asy : Bool) (hn : 0 < n) (evs : List Ev) (rs : List (List Actor))
+    (hk : (run (S.init hi ht w p e o er ins false sf n asy) evs).killIssued = true)
+    (hc : ∀ r ∈ rs, Covers r) (hl : mu (run (S.init hi ht w p e o er ins false sf n asy) evs) < rs.length) :
+    Terminal (rs.foldl runRound (run (S.init hi ht w p e o er ins false sf n asy) evs)) ∧
+    ((rs.foldl runRound (run (S.init hi ht w p e o er ins false sf n asy) evs)).outcome = .threadExc ∨
+     ∃ rc, (rs.foldl runRound (run (S.init hi ht w p e o er ins false sf n asy) evs)).outcome = .timedOut rc) ∧
+    (rs.foldl runRound (run (S.init hi ht w p e o er ins false sf n asy) evs)).kills = 1 := by
   have hx := killed_exited_run _ evs (by simp [S.init]) hk
-  have hho : (run (S.init hi ht w p e o er ins false sf n) evs).holdOpen = false := by
-    have := opts_run (S.init hi ht w p e o er ins false sf n) evs
+  have hho : (run (S.init hi ht w p e o er ins false sf n asy) evs).holdOpen = false := by
+    have := opts_run (S.init hi ht w p e o er ins false sf n asy) evs
     simp only [S.opts, Prod.mk.injEq] at this
     rw [this.2.2.2.2.2.1]; simp [S.init]
-  obtain ⟨c1, c2⟩ := closedInv_run _ evs (closedInv_init hi ht w p e o er ins false sf n) hx hho
-  have hterm := reachable_terminates' hi ht w p e o er ins false sf n hn evs rs hx c1 c2 hc hl
-  have hrun : rs.foldl runRound (run (S.init hi ht w p e o er ins false sf n) evs) =
-      run (S.init hi ht w p e o er ins false sf n) (evs ++ rs.flatten.map .act) := by
+  obtain ⟨c1, c2⟩ := closedInv_run _ evs (closedInv_init hi ht w p e o er ins false sf n asy) hx hho
+  have hterm := reachable_terminates' hi ht w p e o er ins false sf n asy hn evs rs hx c1 c2 hc hl
+  have hrun : rs.foldl runRound (run (S.init hi ht w p e o er ins false sf n asy) evs) =
+      run (S.init hi ht w p e o er ins false sf n asy) (evs ++ rs.flatten.map .act) := by
     rw [rounds_eq_run]; simp [run, List.foldl_append]
   rw [hrun] at hterm ⊢
-  have hk' : (run (S.init hi ht w p e o er ins false sf n) (evs ++ rs.flatten.map .act)).killIssued = true := by
+  have hk' : (run (S.init hi ht w p e o er ins false sf n asy) (evs ++ rs.flatten.map .act)).killIssued = true := by
     have := killIssued_mono_run _ (rs.flatten.map .act) hk
     simpa [run, List.foldl_append] using this
-  exact ⟨hterm, (timeout_kills_and_raises hi ht w p e o er ins false sf n _ hk' hterm.1).1,
-    (timeout_kills_and_raises hi ht w p e o er ins false sf n _ hk' hterm.1).2.1⟩
+  exact ⟨hterm, (timeout_kills_and_raises hi ht w p e o er ins false sf n asy _ hk' hterm.1).1,
+    (timeout_kills_and_raises hi ht w p e o er ins false sf n asy _ hk' hterm.1).2.1⟩
 
 /-- without a timeout nothing is ever killed and no timed-out failure is ever raised -/
 theorem no_timeout_no_kill (hi w p e : Bool) (o er : List Chunk) (ins : List InItem) (ho sf : Bool)
-    (n : Nat) (evs : List Ev) :
-    (run (S.init hi false w p e o er ins ho sf n) evs).kills = 0 ∧
-    ∀ rc, (run (S.init hi false w p e o er ins ho sf n) evs).outcome ≠ .timedOut rc := by
-  have inv := timerInv_run _ evs (timerInv_init hi false w p e o er ins ho sf n)
-  have ho' := opts_run (S.init hi false w p e o er ins ho sf n) evs
+    (n : Nat) (asy : Bool) (evs : List Ev) :
+    (run (S.init hi false w p e o er ins ho sf n asy) evs).kills = 0 ∧
+    ∀ rc, (run (S.init hi false w p e o er ins ho sf n asy) evs).outcome ≠ .timedOut rc := by
+  have inv := timerInv_run _ evs (timerInv_init hi false w p e o er ins ho sf n asy)
+  have ho' := opts_run (S.init hi false w p e o er ins ho sf n asy) evs
   simp only [S.opts, Prod.mk.injEq] at ho'
-  have hnt : (run (S.init hi false w p e o er ins ho sf n) evs).hasTimer = false := by
+  have hnt : (run (S.init hi false w p e o er ins ho sf n asy) evs).hasTimer = false := by
     have := ho'.2.1; simpa [S.init] using this
   have hnone := inv.noneIff.2 (Or.inl hnt)
   have hf := inv.fired
   rw [hnone] at hf
-  have hki : (run (S.init hi false w p e o er ins ho sf n) evs).killIssued = false := by
+  have hki : (run (S.init hi false w p e o er ins ho sf n asy) evs).killIssued = false := by
     simp [timerFired] at hf; exact hf.1
   refine ⟨by rw [inv.kills, hki]; rfl, ?_⟩
   intro rc hrc
@@ -241,6 +241,17 @@ theorem exit_unseen_at_expiry_counterexample :
                            .act .out, .act .main, .act .err, .act .main, .act .main, .act .main]).outcome = .timedOut 0 ∧
     (run (raceInit false) [.env (.exit 0), .act .timer, .act .timer, .act .timer, .act .main, .act .main, .act .main,
                            .act .out, .act .main, .act .err, .act .main, .act .main, .act .main]).kills = 1 := by decide
+
+/-- asynchronous runs are the same machine started in `idle` (the Promise has been handed out, workers
+    and timer are running, `join()` not yet called): every theorem above takes the `asy` flag.  The
+    clock starts with the command, not with `join()`: a timer that expires and kills while the main
+    thread is still idle yields the timed-out failure at the (late) join. -/
+theorem late_join_times_out :
+    (run (S.init false true true false false [] [] [] false false 1000 true)
+      [.act .timer, .act .timer, .act .timer, .act .main, .act .main, .act .main, .act .out, .act .main,
+       .act .err, .act .main, .act .main, .act .main]).outcome = .timedOut (-9) ∧
+    (run (S.init false true true false false [] [] [] false false 1000 true)
+      [.act .timer, .act .timer, .act .timer]).mainPc = .idle := by decide
 
 /-- non-vacuity of `timeout_kills_and_raises`: a schedule on which the kill is issued and `run`
     completes, under `warn` -/
